@@ -73,7 +73,8 @@ def check(run, replay=None):
     run.nontrivial = len({c[1] for c in cases if c[2]})
     run.rule = ("scripted inner relay x call sequence x cancellation points, futures of the real wrapper polled by hand. "
                 "exh: all arrival sequences of <= 4 frames over {A1,A2 (same id), B1, C1 (36 bytes exactly), S (35 bytes)} incl. "
-                "identical duplicates, every gap in {-, Pending, End}, all sequences of <= 3 calls (<= 4 on <= 3 frames, thorough) over "
+                "identical duplicates, every gap in {-, Pending, End}, plus all arrangements of the 5-frame multisets {A1,A1,B1,C1,S} and "
+                "{A1,A2,B1,B1,S} with every gap in {-, Pending}; all sequences of <= 3 calls (<= 4 on <= 3 frames, thorough) over "
                 "{recv a, recv b (ttl 70000), wait_for(id=c), wait_for(id!=a), next}, every cancellation point (drop after k>=1 "
                 "Pending polls); quick executes a seeded 1/8 slice of the scripts with >= 3 frames. sink: <= 2 frames x poll_ready/"
                 "start_send/poll_flush scripts with Pending/Err x <= 2 calls x cancellation incl. drop-before-first-poll. "
